@@ -238,6 +238,13 @@ impl MT107 {
             });
         }
 
+        // Sequence B is mandatory: a message without it is rejected
+        if transactions.is_empty() {
+            return Err(crate::errors::ParseError::InvalidFormat {
+                message: "MT107: At least one transaction of sequence B (field 21) is required".to_string(),
+            });
+        }
+
         // Parse Sequence C - Settlement Details
         // Note: duplicates remain enabled to allow parsing field 32B again
         let settlement_field_32b = parser.parse_field::<Field32B>("32B")?;
